@@ -18,6 +18,7 @@
 
 #include <boost/date_time/posix_time/posix_time.hpp>
 #include <boost/regex.hpp>
+#include <random>
 #include <boost/random.hpp>
 #include <boost/uuid/uuid.hpp>
 #include <boost/uuid/uuid_generators.hpp>
@@ -43,7 +44,8 @@ const map<string, double> PREFIX_FACTORS = {{"y", 1.0e-24}, {"z", 1.0e-21}, {"a"
 
 string createId() {
     typedef boost::mt19937::result_type seed_type;
-    static boost::mt19937 ran(static_cast<seed_type>(std::time(0)));
+    // seed from the OS entropy source as well: processes started within the same second must not produce the same ids
+    static boost::mt19937 ran(static_cast<seed_type>(std::random_device()() ^ static_cast<seed_type>(std::time(0))));
     static boost::uuids::basic_random_generator<boost::mt19937> gen(&ran);
     boost::uuids::uuid u = gen();
     return boost::uuids::to_string(u);
